@@ -171,6 +171,14 @@ func runC20(c *eng.Ctx) {
 			}
 			return true
 		})
+		// the callers name no further directories: the documented exclusions are `lib` and hidden directories only (a name
+		// passed here is matched against every directory at every depth)
+		for _, s := range p.Sites(f.Obj) {
+			if s.In == nil {
+				continue
+			}
+			r2.Check(len(s.Call.Args) == 1 && !s.Call.Ellipsis.IsValid(), "call:"+s.Where()+"->RecursiveGetExecutablePaths", s.Call.Pos(), "called with the hooks directory only", "hook discovery is asked to exclude further directory names: every sub-directory of that name, at any depth, silently disappears from the hook set")
+		}
 		r2.Check(libOK, f.Key+" lib-excluded", f.Decl.Pos(), `"lib" is always in the exclusion list`, "the lib directory is not excluded from hook discovery")
 		var lit *eng.Lit
 		for _, l := range f.Lits {
